@@ -62,6 +62,9 @@ func c06Materialize(wd string, f map[string]interface{}, n int) string {
 		main += "networks:\n  bare:\n"
 	}
 	c06Write(wd, "compose.yaml", main)
+	// a second compose file of the main project: interpolated after the includes of the first have been loaded, with the main
+	// project's environment all the same; and a second document in it
+	c06Write(wd, "over.yaml", "services:\n  sover: "+c06Svc+"\n---\nservices:\n  sover:\n    labels:\n      v: \"${V:-none}\"\n      w: \"${W:-none}\"\n")
 	c06Write(wd, "custom.env", "V=custom\n")
 	// ---- i1
 	i1 := ""
@@ -91,7 +94,8 @@ func c06Materialize(wd string, f map[string]interface{}, n int) string {
 	}
 	secExtra, cfgExtra := "", ""
 	if b("cenv") {
-		secExtra, cfgExtra = "  secenv: {environment: SECVAR}\n", "  cfgenv: {environment: CFGVAR}\n"
+		// secw / cfgw: from a variable that only the included project's own .env may define
+		secExtra, cfgExtra = "  secenv: {environment: SECVAR}\n  secw: {environment: W}\n", "  cfgenv: {environment: CFGVAR}\n  cfgw: {environment: W}\n"
 	}
 	bare1 := map[string]string{"bare-same": "  bare:\n", "bare-different": "  bare:\n", "main-bare-different": "  bare: {driver: overlay}\n"}[redef]
 	i1 += "services:\n  s1: " + c06Svc + "\n  s1x: {extends: {service: s1}}\nnetworks:\n  shared: {driver: bridge}\n" + bare1 + "secrets:\n  sec1: {file: ./sec.txt}\n" + secExtra + "configs:\n  cfg1: {file: ./cfg.txt}\n" + cfgExtra
@@ -150,6 +154,9 @@ func c06Pasted(res []interface{}) string {
 		switch kind {
 		case "services":
 			def = fmt.Sprintf(`{image: "img-%s-%s", build: "%sctx", volumes: [{type: bind, source: "%sdata", target: /data}], env_file: [{path: "%ssvc.env", required: false}], healthcheck: {test: [CMD, "true"], retries: 3}, read_only: true}`, asStr(r["v"]), asStr(r["w"]), dir, dir, dir)
+			if name == "sover" {
+				def = strings.TrimSuffix(def, "}") + fmt.Sprintf(`, labels: {v: "%s", w: "%s"}}`, asStr(r["v"]), asStr(r["w"]))
+			}
 		case "volumes":
 			def = fmt.Sprintf(`{labels: {v: "%s"}}`, asStr(r["v"]))
 		case "networks":
@@ -159,10 +166,16 @@ func c06Pasted(res []interface{}) string {
 			if asInt(r["variant"]) == 3 {
 				def = "{environment: SECVAR}"
 			}
+			if asInt(r["variant"]) == 5 {
+				def = "{environment: W}"
+			}
 		case "configs":
 			def = fmt.Sprintf(`{file: "%scfg.txt"}`, dir)
 			if asInt(r["variant"]) == 3 {
 				def = "{environment: CFGVAR}"
+			}
+			if asInt(r["variant"]) == 5 {
+				def = "{environment: W}"
 			}
 		}
 		kinds[kind] = append(kinds[kind], "  "+name+": "+def+"\n")
@@ -219,7 +232,7 @@ func C06(c *core.Ctx) {
 		sort.Strings(fl)
 		key := strings.Join(fl, ",")
 		c.Eval(key+fmt.Sprint(n%6), true)
-		p, lerr := safeLoad(wd, env, []namedDoc{{Name: filepath.Join(wd, "compose.yaml")}})
+		p, lerr := safeLoad(wd, env, []namedDoc{{Name: filepath.Join(wd, "compose.yaml")}, {Name: filepath.Join(wd, "over.yaml")}})
 		rep := map[string]interface{}{"scenario": key, "main": main, "expected": exp}
 		if n%61 == 1 {
 			c.Sample(map[string]interface{}{"scenario": key, "main_file": main, "spec_result": exp})
@@ -233,13 +246,25 @@ func C06(c *core.Ctx) {
 			return nil
 		}
 		pasted := c06Pasted(asList(exp["res"]))
-		q, perr := safeLoad(wd, env, []namedDoc{{Name: filepath.Join(wd, "pasted.yaml"), Content: pasted}})
+		// the pasted document is loaded with the value the declaring file's environment gives W (services carry theirs as literals)
+		penv := map[string]string{}
+		for k, v := range env {
+			penv[k] = v
+		}
+		for _, r := range asList(exp["res"]) {
+			rm := asMap(r)
+			if asInt(rm["variant"]) == 5 && asStr(rm["w"]) != "none" {
+				penv["W"] = asStr(rm["w"])
+			}
+		}
+		q, perr := safeLoad(wd, penv, []namedDoc{{Name: filepath.Join(wd, "pasted.yaml"), Content: pasted}})
 		switch {
 		case perr != nil:
 			c.Report(core.Finding{Sig: "pasted-invalid", Detail: fmt.Sprintf("scenario [%s]: the pasted document does not load: %v\n%s", key, perr, pasted), Replay: rep})
 		case lerr != nil:
 			c.Report(core.Finding{Sig: "include-rejected", Detail: fmt.Sprintf("scenario [%s]: loading with include fails (%v) although the pasted document loads:\n%s", key, lerr, pasted), Replay: rep})
 		default:
+			delete(q.Environment, "W") // only there to give the pasted W-sourced secret / config its value
 			dp, dq := projDump(p), projDump(q)
 			if dp != dq {
 				c.Report(core.Finding{Sig: "include-differs", Detail: fmt.Sprintf("scenario [%s]: the project loaded through include differs from the pasted document: %s", key, firstDiff(dp, dq)), Replay: rep})
